@@ -80,7 +80,7 @@ fn mask_strategy(ncoef: usize) -> BoxedStrategy<u16> {
     }
 }
 
-fn ext_strategy(ncoef: usize) -> BoxedStrategy<ExtR> {
+pub fn ext_strategy(ncoef: usize) -> BoxedStrategy<ExtR> {
     prop_oneof![
         1 => Just(ExtR::Zero),
         1 => Just(ExtR::One),
